@@ -23,111 +23,168 @@ Proof. destruct l as [|x r]; intros H; [reflexivity|]. apply last_or_zero; [exac
 Lemma DInv_d0 fee : DInv fee d0.
 Proof. constructor; cbn; auto; lia. Qed.
 
+(* a cache that stores or drops, never keeps an old entry over a new value *)
+Definition sound_policy (cfg : dcfg) : Prop := dc_when_full cfg <> FPKeepOld.
+
+(* what Set leaves in the cache under a sound policy: the new value or nothing *)
+Lemma cache_set_sound cfg s v : sound_policy cfg -> cache_set cfg s v = Some v \/ cache_set cfg s v = None.
+Proof.
+  unfold sound_policy, cache_set. intros H. destruct (d_full s); [|now left].
+  destruct (dc_when_full cfg); [now left|now right|congruence].
+Qed.
+
+Lemma cache_ok_set cfg s v e : sound_policy cfg -> v = e ->
+  match cache_set cfg s v with Some w => w = e | None => True end.
+Proof. intros H ->. destruct (cache_set_sound cfg s e H) as [-> | ->]; auto. Qed.
+
+(* the answer of a read is the contract's pending view, and so is what it leaves in the cache *)
+Lemma read_sound cfg s fee dep c : sound_policy cfg -> DInv fee s -> read cfg s = (Some dep, c) ->
+  dep = eff s /\ match c with Some w => w = eff s | None => True end.
+Proof.
+  intros Hp [Hc _ _ _]. unfold read. destruct (d_cache s) as [v|].
+  - intros [= <- <-]. auto.
+  - destruct (eff_locked s); [discriminate|]. intros [= <- <-]. split; [reflexivity|].
+    now apply cache_ok_set.
+Qed.
+
+Lemma read_cache_ok cfg s fee : sound_policy cfg -> DInv fee s ->
+  match snd (read cfg s) with Some w => w = eff s | None => True end.
+Proof.
+  intros Hp [Hc Hpe Hn Hco]. unfold read. destruct (d_cache s) as [v|] eqn:E; cbn [snd]; [exact Hc|].
+  destruct (eff_locked s); cbn [snd]; [exact I|]. now apply cache_ok_set.
+Qed.
+
 Lemma DInv_step cfg s o :
-  dc_refresh_on_settle cfg = true -> 0 <= dc_fee cfg ->
+  dc_refresh_on_settle cfg = true -> sound_policy cfg -> 0 <= dc_fee cfg ->
   DInv (dc_fee cfg) s -> DInv (dc_fee cfg) (fst (dstep cfg s o)).
 Proof.
-  intros Hpol Hfee [Hc Hp [Hn1 Hn2] Hcons].
-  destruct o as [v|c| | | |]; cbn [dstep].
-  - destruct (d_pending s) eqn:Hpe; [|constructor; cbn [fst]; rewrite ?Hpe; auto].
-    destruct ((0 <? v) && negb (d_locked s)) eqn:Hv; [|constructor; cbn [fst]; rewrite ?Hpe; auto].
-    apply andb_true_iff in Hv as [Hv _]. unfold eff in *. rewrite Hpe in *. cbn in *.
-    constructor; cbn; auto; try lia.
-  - destruct (0 <=? c) eqn:Hc0; [|constructor; cbn [fst]; auto].
-    unfold eff in *. constructor; cbn; auto; try lia.
-  - destruct (d_pending s) eqn:Hpe; [|constructor; cbn [fst]; rewrite ?Hpe; auto].
-    destruct (0 <? d_chain s); constructor; unfold eff in *; cbn; rewrite ?Hpe in *; auto.
-  - unfold read. destruct (d_cache s) as [v|] eqn:Hca.
-    + subst v. cbn [fst snd].
-      destruct ((match dc_min cfg with Some m => eff s + d_credit s <? m | None => false end) || (eff s + d_credit s - dc_fee cfg <? 0)) eqn:Hb.
-      * cbn. constructor; cbn; rewrite ?Hca; auto.
-      * cbn. apply orb_false_iff in Hb as [_ Hb]. rewrite Hpol.
-        constructor; cbn.
-        -- unfold eff. cbn. now rewrite last_or_app.
-        -- apply Forall_app; split; auto.
-        -- lia.
-        -- rewrite last_or_app. lia.
-    + destruct (eff_locked s); cbn [fst snd]; [constructor; rewrite ?Hca; auto|].
-      destruct ((match dc_min cfg with Some m => eff s + d_credit s <? m | None => false end) || (eff s + d_credit s - dc_fee cfg <? 0)) eqn:Hb.
-      * cbn. constructor; cbn; auto.
-      * cbn. apply orb_false_iff in Hb as [_ Hb]. rewrite Hpol.
-        constructor; cbn.
-        -- unfold eff. cbn. now rewrite last_or_app.
-        -- apply Forall_app; split; auto.
-        -- lia.
-        -- rewrite last_or_app. lia.
-  - destruct (d_pending s) as [|p rest] eqn:Hpe; [constructor; cbn [fst]; rewrite ?Hpe; auto|].
-    inversion Hp; subst. cbn.
+  intros Hpol Hsp Hfee HI. pose proof HI as [Hc Hp [Hn1 Hn2] Hcons].
+  destruct o as [v|c| | | | | |b]; cbn [dstep].
+  - (* deposit *)
+    destruct (d_pending s) eqn:Hpe; [|cbn [fst]; exact HI].
+    destruct ((0 <? v) && negb (d_locked s)) eqn:Hv; [|cbn [fst]; exact HI].
+    apply andb_true_iff in Hv as [Hv _]. apply Z.ltb_lt in Hv.
+    unfold eff in *. rewrite Hpe in *. cbn [last_or] in *.
+    constructor; unfold upd, eff; cbn [fst d_cache d_pending d_chain d_credit d_paid d_in last_or].
+    + now apply cache_ok_set.
+    + constructor.
+    + lia.
+    + lia.
+  - (* earn *)
+    destruct (0 <=? c) eqn:Hc0; [|cbn [fst]; exact HI]. apply Z.leb_le in Hc0.
+    constructor; unfold upd, eff in *; cbn [fst d_cache d_pending d_chain d_credit d_paid d_in]; auto; lia.
+  - (* force *)
+    destruct (d_pending s) eqn:Hpe; [|cbn [fst]; exact HI].
+    destruct (0 <? d_chain s); [|cbn [fst]; exact HI].
+    constructor; unfold upd, eff in *; cbn [fst d_cache d_pending d_chain d_credit d_paid d_in]; rewrite ?Hpe in *; auto.
+  - (* withdraw *)
+    destruct (read cfg s) as [[dep|] c1] eqn:Hr; [|cbn [fst]; exact HI].
+    destruct (read_sound cfg s _ dep c1 Hsp HI Hr) as [-> Hc1].
+    cbv zeta.
+    destruct ((match dc_min cfg with Some m => eff s + d_credit s <? m | None => false end) || (eff s + d_credit s - dc_fee cfg <? 0)) eqn:Hb; cbn [fst].
+    + constructor; unfold upd, eff in *; cbn [d_cache d_pending d_chain d_credit d_paid d_in]; auto.
+    + apply orb_false_iff in Hb as [_ Hb]. apply Z.ltb_ge in Hb. rewrite Hpol.
+      constructor; unfold upd, eff in *; cbn [d_cache d_pending d_chain d_credit d_paid d_in].
+      * apply cache_ok_set; [exact Hsp|]. now rewrite last_or_app.
+      * apply Forall_app; split; auto.
+      * lia.
+      * rewrite last_or_app. lia.
+  - (* mine *)
+    destruct (d_pending s) as [|p rest] eqn:Hpe; [cbn [fst]; exact HI|].
+    inversion Hp; subst.
     assert (He : eff s = 0).
     { unfold eff. rewrite Hpe. apply last_or_zero; [constructor; auto|discriminate]. }
     assert (Hz : last_or 0 rest = 0) by (apply last_or_zeros; assumption).
-    constructor; unfold eff; cbn [fst d_cache d_pending d_chain d_credit d_paid d_in].
-    + now rewrite Hz.
+    constructor; unfold upd, eff; cbn [fst d_cache d_pending d_chain d_credit d_paid d_in].
+    + apply cache_ok_set; [exact Hsp|]. now rewrite Hz.
     + assumption.
     + lia.
-    + rewrite Hz. fold (eff s) in Hcons. lia.
-  - constructor; cbn [fst d_cache d_pending d_chain d_credit]; auto.
+    + rewrite Hz. lia.
+  - (* restart *)
+    constructor; unfold upd, eff in *; cbn [fst d_cache d_pending d_chain d_credit d_paid d_in]; auto.
+  - (* read *)
+    pose proof (read_cache_ok cfg s _ Hsp HI) as Hrc.
+    constructor; unfold upd, eff in *; cbn [fst d_cache d_pending d_chain d_credit d_paid d_in]; auto.
+  - (* other accounts fill or leave the cache *)
+    constructor; unfold eff in *; cbn [fst d_cache d_pending d_chain d_credit d_paid d_in]; auto.
 Qed.
 
-(* C07, for every history of deposits, earnings, forced-settlement requests, withdrawals
-   (immediate repeats included) and minings: the wallet is never paid more than it put in and
-   earned, and once everything is mined what was paid, what is left and the fees add up *)
+Lemma DInv_run cfg ops :
+  dc_refresh_on_settle cfg = true -> sound_policy cfg -> 0 <= dc_fee cfg ->
+  forall s, DInv (dc_fee cfg) s -> DInv (dc_fee cfg) (drun cfg s ops).
+Proof.
+  intros Hpol Hsp Hfee. induction ops as [|o r IH]; intros s Hs; [exact Hs|]. cbn. apply IH. now apply DInv_step.
+Qed.
+
+(* C07, for every history of deposits, earnings, forced-settlement requests, reads, withdrawals
+   (immediate repeats included), minings, restarts, and of other accounts filling the cache up and
+   leaving it again, under any bound that stores or drops: the wallet is never paid more than it
+   put in and earned, and what was paid, what is left and the fees add up *)
 Theorem never_overpaid cfg ops :
-  dc_refresh_on_settle cfg = true -> 0 <= dc_fee cfg ->
+  dc_refresh_on_settle cfg = true -> sound_policy cfg -> 0 <= dc_fee cfg ->
   let s := drun cfg d0 ops in d_paid s + eff s + d_credit s <= d_in s.
 Proof.
-  intros Hpol Hfee. cbn zeta.
-  assert (H : forall s, DInv (dc_fee cfg) s -> DInv (dc_fee cfg) (drun cfg s ops)).
-  { induction ops as [|o r IH]; intros s Hs; [exact Hs|]. cbn. apply IH. now apply DInv_step. }
-  destruct (H d0 (DInv_d0 _)). assumption.
+  intros Hpol Hsp Hfee. cbn zeta.
+  destruct (DInv_run cfg ops Hpol Hsp Hfee d0 (DInv_d0 _)). assumption.
 Qed.
 
-(* an immediate repeat pays nothing of the deposit again: after a withdrawal that paid, the next
-   withdrawal (nothing earned in between) pays at most the credit, i.e. 0 *)
+(* an immediate repeat pays nothing of the deposit again: after a withdrawal that was executed
+   (it paid, or it paid exactly 0 and submitted its settlement), the next withdrawal (nothing
+   earned in between, whatever happened to the cache) pays 0 *)
 Theorem repeat_pays_nothing cfg ops :
-  dc_refresh_on_settle cfg = true -> 0 <= dc_fee cfg ->
+  dc_refresh_on_settle cfg = true -> sound_policy cfg -> 0 <= dc_fee cfg ->
   let s := drun cfg d0 ops in
   0 < snd (dstep cfg s DWithdraw) \/ (snd (dstep cfg s DWithdraw) = 0 /\ d_pending (fst (dstep cfg s DWithdraw)) <> d_pending s) ->
   snd (dstep cfg (fst (dstep cfg s DWithdraw)) DWithdraw) = 0.
 Proof.
-  intros Hpol Hfee. cbn zeta. set (s := drun cfg d0 ops).
-  assert (HI : DInv (dc_fee cfg) s).
-  { unfold s. assert (H : forall s0, DInv (dc_fee cfg) s0 -> DInv (dc_fee cfg) (drun cfg s0 ops)).
-    { induction ops as [|o r IH]; intros s0 Hs; [exact Hs|]. cbn. apply IH. now apply DInv_step. }
-    apply H, DInv_d0. }
+  intros Hpol Hsp Hfee. cbn zeta. set (s := drun cfg d0 ops).
+  assert (HI : DInv (dc_fee cfg) s) by (apply DInv_run; auto using DInv_d0).
   intros Hpaid.
-  (* the first withdrawal executed: its state has cache Some 0, credit 0 *)
-  assert (Hexec : d_cache (fst (dstep cfg s DWithdraw)) = Some 0 /\ d_credit (fst (dstep cfg s DWithdraw)) = 0).
-  { cbn [dstep] in *. unfold read in *. destruct (d_cache s) as [v|]; cbn [fst snd] in *.
-    - destruct (_ || _); cbn in *; [destruct Hpaid as [H|[_ H]]; [lia|congruence]|]. rewrite Hpol. auto.
-    - destruct (eff_locked s); cbn [fst snd] in *; [destruct Hpaid as [H|[_ H]]; [lia|congruence]|].
-      destruct (_ || _); cbn in *; [destruct Hpaid as [H|[_ H]]; [lia|congruence]|]. rewrite Hpol. auto. }
-  destruct Hexec as [Hc Hcr].
+  pose proof (DInv_step cfg s DWithdraw Hpol Hsp Hfee HI) as HI1.
+  (* the first withdrawal executed: afterwards the pending view is 0 and the credit is 0 *)
+  assert (Hexec : eff (fst (dstep cfg s DWithdraw)) = 0 /\ d_credit (fst (dstep cfg s DWithdraw)) = 0).
+  { cbn [dstep] in *. destruct (read cfg s) as [[dep|] c1] eqn:Hr; cbn [fst snd] in *.
+    - cbv zeta in *. destruct (_ || _); cbn [fst snd] in *.
+      + destruct Hpaid as [H|[_ H]]; [lia|]. unfold upd in H; cbn in H. congruence.
+      + unfold upd, eff; cbn [d_pending d_chain d_credit]. now rewrite last_or_app.
+    - destruct Hpaid as [H|[_ H]]; [lia|congruence]. }
+  destruct Hexec as [He Hcr].
   set (s1 := fst (dstep cfg s DWithdraw)) in *.
-  cbn [dstep]. unfold read. rewrite Hc, Hcr. cbn [fst snd].
-  destruct (_ || _) eqn:Hb; cbn; [reflexivity|].
+  cbn [dstep]. destruct (read cfg s1) as [[dep|] c1] eqn:Hr; cbn [snd]; [|reflexivity].
+  destruct (read_sound cfg s1 _ dep c1 Hsp HI1 Hr) as [-> _].
+  cbv zeta. rewrite He, Hcr.
+  destruct (_ || _) eqn:Hb; cbn [snd]; [reflexivity|].
   apply orb_false_iff in Hb as [_ Hb]. apply Z.ltb_ge in Hb. lia.
 Qed.
 
 (* the pinned code (cache refreshed by the event only): an immediate repeat is paid the deposit again *)
 Theorem stale_cache_pays_twice :
-  let cfg := {| dc_fee := 10; dc_min := None; dc_refresh_on_settle := false |} in
+  let cfg := {| dc_fee := 10; dc_min := None; dc_refresh_on_settle := false; dc_when_full := FPStore |} in
   dpaid cfg d0 [DDeposit 1000000; DEarn 10000; DWithdraw; DWithdraw; DMine; DMine] = [0; 0; 1009990; 999990; 0; 0] /\
-  let cfg' := {| dc_fee := 10; dc_min := None; dc_refresh_on_settle := true |} in
+  let cfg' := {| dc_fee := 10; dc_min := None; dc_refresh_on_settle := true; dc_when_full := FPStore |} in
   dpaid cfg' d0 [DDeposit 1000000; DEarn 10000; DWithdraw; DWithdraw; DMine; DMine] = [0; 0; 1009990; 0; 0; 0].
 Proof. vm_compute. split; reflexivity. Qed.
+
+(* a bound on the cache that drops the update of an entry when the cache is full of other
+   accounts' entries (instead of dropping the entry): the withdrawal's own refresh is lost, the
+   wallet still reads its old deposit and the repeat is paid it again. Dropping the entry, or
+   having no bound, pays once. *)
+Theorem full_cache_keeps_old_pays_twice :
+  let ops := [DDeposit 1000000; DEarn 10000; DRead; DCrowd true; DWithdraw; DRead; DWithdraw; DMine; DMine] in
+  let run p := dpaid {| dc_fee := 0; dc_min := None; dc_refresh_on_settle := true; dc_when_full := p |} d0 ops in
+  run FPKeepOld = [0; 0; 0; 0; 1010000; 0; 1000000; 0; 0] /\
+  run FPEvict = [0; 0; 0; 0; 1010000; 0; 0; 0; 0] /\
+  run FPStore = [0; 0; 0; 0; 1010000; 0; 0; 0; 0].
+Proof. vm_compute. repeat split; reflexivity. Qed.
 
 (* what any request reads of a wallet's deposit is what the contract holds (its pending view):
    the cache never answers anything else, in any reachable state — no reader sees a settlement
    that has not been submitted, nor misses one that has *)
 Theorem reads_are_coherent cfg ops v c :
-  dc_refresh_on_settle cfg = true -> 0 <= dc_fee cfg ->
-  read (drun cfg d0 ops) = (Some v, c) -> v = eff (drun cfg d0 ops).
+  dc_refresh_on_settle cfg = true -> sound_policy cfg -> 0 <= dc_fee cfg ->
+  read cfg (drun cfg d0 ops) = (Some v, c) -> v = eff (drun cfg d0 ops).
 Proof.
-  intros Hpol Hfee.
-  assert (H : forall s, DInv (dc_fee cfg) s -> DInv (dc_fee cfg) (drun cfg s ops)).
-  { induction ops as [|o r IH]; intros s Hs; [exact Hs|]. cbn. apply IH. now apply DInv_step. }
-  destruct (H d0 (DInv_d0 _)) as [Hc _ _ _]. unfold read.
-  destruct (d_cache (drun cfg d0 ops)) as [w|]; [intros [= <- _]; exact Hc|].
-  destruct (eff_locked (drun cfg d0 ops)); [discriminate|]. now intros [= <- _].
+  intros Hpol Hsp Hfee Hr.
+  pose proof (DInv_run cfg ops Hpol Hsp Hfee d0 (DInv_d0 _)) as HI.
+  now destruct (read_sound cfg _ _ v c Hsp HI Hr).
 Qed.
